@@ -592,6 +592,7 @@ def run(ck):
     conflict = [c_ for c_ in rz if any(a[0] == 'Eq' and any('.get(attr, value)' in x for x in a[1:]) and 'value' in a[1:] for a in flow.atoms_of(c_))]
     ck.ob('PROV-sections', ff.loc(plk), ok and len(conflict) == 1, 'a link / modification [ atoms ] line defines the atom under its normalised key with its own attributes, then the link-wide ones, '
           'then what an earlier line said, then the defaults; a contradiction with an earlier definition is an error', key='PROV-sections|link-atom')
+    link_atom_name_rule(ck)
     # ------------------------------------------------------------- #ifdef / #ifndef / #else / #endif: the condition recorded on the lines that follow
     pp = ck.need(method(itpd, 'parse_pragma'), 'ITPDirector.parse_pragma vanished')
     ck.analysed(itp, pp)
@@ -693,6 +694,7 @@ def run(ck):
                        and any(isinstance(x_, ast.Constant) and x_.value in ('2', 2) for x_ in [c_.left] + c_.comparators)]
         ck.ob('PROV-sections', ff.loc(dih), len(from_parsed) == 1 and not from_tokens, 'a dihedral line is an improper exactly when the first parameter of the parsed interaction is "2" '
               '({} test(s) on the parsed parameters, {} on raw token positions)'.format(len(from_parsed), len(from_tokens)), key='PROV-sections|improper-by-parsed-type')
+    section_key_rule(ck)
     # ITP interaction lines: an atom column given by its number is read strictly (a line with too few columns is an error, not a shorter interaction)
     itpm = idx.mod(ITP)
     sp = itpm.func('ITPDirector._split_atoms_and_parameters')
@@ -722,8 +724,54 @@ def run(ck):
             len(handed) == 1 and [u(a) for a in handed[0].args] == [upd[0].func.value.id]
     ck.ob('PROV-node-attributes', mp.loc(nodes_fn), ok, 'a node of a .mapping file gets the attributes of its block identifier *updated with* those written on its own line '
           '(the line wins), and that dictionary is what the builder receives', key='PROV-node-attributes|precedence')
+    # the origin / target blocks of a .mapping file are instantiated through Block.to_molecule: each atom gets what the force field declares for *it*
+    from .c12 import to_molecule_fresh_atom
+    to_molecule_fresh_atom(ck, 'PROV-map-blocks')
     shared.truthy_zero(ck, [FF, ITP, PU, MAP, 'vermouth/map_input.py'])
     ck.assume('token-level grammar, macro substitution results and .map weight arithmetic are not decided')
+
+
+def link_atom_name_rule(ck, rule='PROV-sections'):
+    """An atom name written on a link / modification [ atoms ] line is kept (docstring of _treat_atom_prefix: "If the atom name is explicitly specified, then
+    it is not modified"): the line parser itself names the atom after its key only where no prefix treatment takes place.  Shared by C13 and C14 (the
+    canonical names a modification gives its atoms are the declared ones)."""
+    ff = ck.index.mod(FF)
+    plk = ff.func('_parse_link_atom')
+    ck.analysed(ff, plk)
+    name_stores = stmts_with_env(plk, lambda s_: isinstance(s_, ast.Assign) and any(isinstance(t_, ast.Subscript) and isinstance(t_.value, ast.Name) and
+                                                                                 try_fold(t_.slice, default=None) == 'atomname' for t_ in s_.targets))
+    okn = True
+    for _st, c_, _e in name_stores:
+        renamed = flow.rename(c_, {k_: 'TP' for k_ in flow.atoms_of(c_) if k_[0] == 'truth' and k_[1] == 'treat_prefix'})
+        okn = okn and flow.implies(renamed, flow.parse_formula('not TP'))[0]
+    ck.ob(rule, ff.loc(plk), okn, 'an atom name given on a link / modification [ atoms ] line is kept: _parse_link_atom sets `atomname` itself only when the key is taken '
+          'as it stands ({} store(s), all under `not treat_prefix`)'.format(len(name_stores)), key=rule + '|link-atom|explicit-name-kept')
+
+
+def section_key_rule(ck):
+    """Shared by C13 and C05 (a removal that loses its #meta filter removes the wrong interaction)."""
+    ff = ck.index.mod(FF)
+    ffd = ff.cls('FFDirector')
+    # [ !bonds ] / [ !dihedrals ]: the removal marker is cut off the section name *before* the name is used as the key of the section-wide #meta and of the
+    # interactions -- the two sibling line parsers agree (a `#meta` filed under '!dihedrals' is never found by the removal lines, which then match without it)
+    from ..util import runs_after
+    for sib in ('_interactions', '_dih_interactions'):
+        sfn = method(ffd, sib)
+        if sfn is None:
+            continue
+        ck.analysed(ff, sfn)
+        users = [c_ for c_ in walk_local(sfn) if isinstance(c_, ast.Call) and call_name(c_) in ('_parse_meta', '_base_parser')]
+        oks = bool(users)
+        for c_ in users:
+            sec = kwarg(c_, 'section')
+            if not isinstance(sec, ast.Name):
+                oks = False
+                continue
+            strips = [i_ for i_ in walk_local(sfn) if isinstance(i_, ast.If) and u(i_.test) == "{}.startswith('!')".format(sec.id) and
+                      any(isinstance(a_, ast.Assign) and u(a_.targets[0]) == sec.id and u(a_.value) == '{}[1:]'.format(sec.id) for a_ in i_.body)]
+            oks = oks and len(strips) == 1 and runs_after(sfn, strips[0], ff.stmt_of(c_)) and not any(c_ is x_ for x_ in ast.walk(strips[0]))
+        ck.ob('SIB-section-key', ff.loc(sfn), oks, '{}: the section name handed to _parse_meta / _base_parser ({} call(s)) is the one with the removal marker "!" already cut off'.format(
+            sib, len(users)), key='SIB-section-key|' + sib)
 
 
 # ----------------------------------------------------------------- prefix / order normalisation (small-domain interpretation)
